@@ -14,8 +14,17 @@ use crate::seams::key;
 
 /// clause-by-clause consistency oracle; returns list of (clause, detail)
 pub fn ledger_consistency(w: &World, n: &LedgerNode) -> Vec<(String, String)> {
+    ledger_consistency_obs(w, &n.obs())
+}
+
+pub fn ledger_consistency_obs(w: &World, o: &Obs) -> Vec<(String, String)> {
+    ledger_consistency_from(w, o, 0)
+}
+
+/// like `ledger_consistency_obs`, but heights <= `floor` are don't-care as well (a restarted node
+/// can only hold what its disk held)
+pub fn ledger_consistency_from(w: &World, o: &Obs, floor: u64) -> Vec<(String, String)> {
     let mut bad = vec![];
-    let o = n.obs();
     let g = w.cfg.consensus.genesis_period;
     if o.tip_id == 0 && o.tip_hash == [0; 32] {
         if !o.utxo.is_empty() {
@@ -31,7 +40,7 @@ pub fn ledger_consistency(w: &World, n: &LedgerNode) -> Vec<(String, String)> {
         bad.push(("tip-id".into(), format!("tip id {} but block has id {}", o.tip_id, w.blocks[t].id)));
     }
     let path = w.path(t);
-    let lo = o.tip_id.saturating_sub(2 * g); // ids <= lo may be purged: don't-care
+    let lo = o.tip_id.saturating_sub(2 * g).max(floor); // ids <= lo may be purged: don't-care
     // (i) by-height index
     let idx: BTreeMap<u64, Hash> = o.lc_index.iter().cloned().collect();
     for &bi in path.iter() {
